@@ -142,10 +142,11 @@ type H2End struct {
 	rstSeen    map[uint32]bool
 	closedSelf bool
 	// Violations of the receiver ledger are reported through these callbacks.
-	OnWindow    func(what string, stream uint32, got, allowed int)
-	OnFrameSize func(ev H2Ev, max int)
-	Held        bool
-	splits      int
+	OnWindow     func(what string, stream uint32, got, allowed int)
+	OnFrameSize  func(ev H2Ev, max int)
+	Held         bool
+	splits       int
+	tinyGrants   int
 	peerMaxFrame int // largest frame payload this end may send: the SETTINGS_MAX_FRAME_SIZE it last received (default 16384)
 	// HPACK table-size discipline: after this end lowered SETTINGS_HEADER_TABLE_SIZE and the
 	// change was acknowledged, the next header block must start with a dynamic table size update
@@ -257,7 +258,18 @@ func (e *H2End) actions(add func(kernel.Action)) {
 	sort.Slice(ids, func(i, j int) bool { return ids[i] < ids[j] })
 	for _, id := range ids {
 		id := id
-		add(kernel.Action{Key: fmt.Sprintf("%s grant s%d", e.Name, id), W: 2, Class: kernel.Actor, Do: func() { e.grant(id, e.grantSize(e.pendStream[id])) }})
+		add(kernel.Action{Key: fmt.Sprintf("%s grant s%d", e.Name, id), W: 2, Class: kernel.Actor, Do: func() {
+			n := e.grantSize(e.pendStream[id])
+			e.grant(id, n)
+			if n < 200 {
+				// A relay that uses every byte of credit answers tiny grants with tiny frames; after
+				// a while this receiver opens the stream wide so that a run stays bounded.
+				if e.tinyGrants++; e.tinyGrants%40 == 0 {
+					e.GrantExtra(id, 1<<20)
+					e.GrantExtra(0, 1<<20)
+				}
+			}
+		}})
 	}
 }
 
@@ -571,7 +583,7 @@ func (e *H2End) onFrame(f http2.Frame, ln int) {
 		e.RecvFlowConn += ln
 		e.pendStream[f.StreamID] += ln
 		e.pendConn += ln
-		if e.OnWindow != nil {
+		if e.OnWindow != nil && ln > 0 { // (an empty DATA frame consumes no window and may be sent at any time)
 			if allowed := maxOf(e.advInit) + e.GrantStream[f.StreamID]; e.RecvFlow[f.StreamID] > allowed {
 				e.OnWindow("stream", f.StreamID, e.RecvFlow[f.StreamID], allowed)
 			}
